@@ -19,7 +19,7 @@ META = dict(
 
 
 def run(ctx):
-    n, steps = (120, 14) if ctx.tier == "quick" else (3000, 40)
+    n, steps = (120, 14) if ctx.tier == "quick" else (1000, 30)
     exe, dlog = vlib.build_driver()
     if exe is None:
         raise RuntimeError("driver build failed: " + dlog)
